@@ -52,6 +52,18 @@ func sel(reqs []Req, ep, g, status string) []Req {
 	return out
 }
 
+// selDone: like sel, but only requests that have been answered (a request still in flight may yet be answered with an
+// error).
+func selDone(reqs []Req, ep, g, status string) []Req {
+	var out []Req
+	for _, r := range sel(reqs, ep, g, status) {
+		if !r.Done.IsZero() {
+			out = append(out, r)
+		}
+	}
+	return out
+}
+
 func c04Scenario(s *sc) {
 	kind := s.c.Kind
 	// ---- configuration ----
@@ -144,7 +156,7 @@ func c04Scenario(s *sc) {
 				if ep == inflightEP {
 					continue
 				}
-				if len(sel(reqs, ep, g, "firing")) == 0 {
+				if len(selDone(reqs, ep, g, "firing")) == 0 {
 					return false
 				}
 			}
@@ -335,7 +347,7 @@ func c04Scenario(s *sc) {
 	if newEP != "" {
 		ok := func(reqs []Req) bool {
 			for _, g := range gnames {
-				if len(sel(reqs, newEP, g, "firing")) == 0 {
+				if len(selDone(reqs, newEP, g, "firing")) == 0 {
 					return false
 				}
 			}
@@ -355,7 +367,7 @@ func c04Scenario(s *sc) {
 		// the aborted delivery must be made up for by the new dispatcher
 		ok := func(reqs []Req) bool {
 			for _, g := range gnames {
-				if len(sel(reqs, inflightEP, g, "firing")) == 0 {
+				if len(selDone(reqs, inflightEP, g, "firing")) == 0 {
 					return false
 				}
 			}
@@ -462,7 +474,7 @@ func c04Scenario(s *sc) {
 	resOK := func(reqs []Req) bool {
 		for _, ep := range endpoints {
 			for _, g := range gnames {
-				if sendResolved[ep] && len(sel(reqs, ep, g, "resolved")) == 0 {
+				if sendResolved[ep] && len(selDone(reqs, ep, g, "resolved")) == 0 {
 					return false
 				}
 			}
